@@ -855,6 +855,11 @@ class C06Monitor(explore.Monitor):
         return "cycle-through-error-swallowing-formula"
       if "lookup" in kinds:
         return "cycle-through-lookup-on-own-column"
+    if diff0 and all(re.match(r"(table )?[A-Za-z0-9_]*_summary_[A-Za-z0-9_]*[ .]", l) for l in diff0) and \
+        any("row ids" in l for l in diff0):
+      # only summary tables differ, and in their ROW SETS: a summary table grouped by formula
+      # columns gets a row for every key value its source rows pass through during recalculation
+      return "summary-table-rows-for-transient-keys"
     kinds = sorted(set(a[0] for a in bundle))
     diff = detail.get("diff") or [detail.get("error", "")]
     return "%s|%s|%s|%s" % (clause, detail.get("how"), ",".join(kinds), ",".join(error_kinds(diff)))
